@@ -734,7 +734,7 @@ pub fn fuse_case(t: &mut Tape) -> NetCase {
     let w = t.choose(&["ads", "banner", "track", "pixel", "advert"]);
     let others = ["foo", "bar", "img", "x1", "load", "zz", "advice", "q"];
     let optsets = ["", "", "script", "image,script", "~script", "third-party", "important", "match-case", "xhr,1p"];
-    let n = 2 + t.pick(24);
+    let n = if t.chance(1, 10) { 20 + t.pick(80) } else { 2 + t.pick(24) };
     let mut rules = vec![];
     for _ in 0..n {
         let o = t.choose(&others);
@@ -980,6 +980,23 @@ pub fn full_case(t: &mut Tape, cfg: &NetCfg, cosmetic_share: usize) -> FullCase 
             rules.push(net_rule(t, &pool, &pool_hosts, &cfg.opt));
         }
     }
+    // long lines: cross the msgpack str8/str16/str32 and array16 boundaries now and then
+    if t.chance(1, 12) {
+        let len = [40usize, 300, 70_000][t.pick(3)];
+        let body: String = (0..len).map(|i| (b'a' + (i % 23) as u8) as char).collect();
+        rules.push(match t.pick(4) {
+            0 => format!("/{}/x", body),
+            1 => format!("example.com##.{}", body),
+            2 => format!("||example.com/{}^$script", body),
+            _ => format!("example.com##+js(set, {})", body),
+        });
+    }
+    if t.chance(1, 12) {
+        // one bucket with more than 15 rules
+        for i in 0..(16 + t.pick(20)) {
+            rules.push(format!("/bucketful/{}{}$image", word(t), i));
+        }
+    }
     let mut tags = vec![];
     for tg in TAGS {
         if t.chance(1, 2) {
@@ -1068,4 +1085,52 @@ pub fn tokenless_case(t: &mut Tape) -> NetCase {
         reqs.push(ReqSpec { url: u, source, rtype: t.choose(&["font", "script", "image", "websocket", "xhr", "other", "document"]).to_string() });
     }
     NetCase { rules, tags, reqs }
+}
+
+/// Long URLs (60-126 tokens, the documented index limit is 127) and long hostnames; rules are cut
+/// from the *tail* of the URL so that the token that decides the bucket lies late in the URL.
+pub fn long_url_case(t: &mut Tape) -> NetCase {
+    let mut segs: Vec<String> = vec![];
+    let ntok = 40 + t.pick(86);
+    for i in 0..ntok {
+        segs.push(if t.chance(1, 6) { format!("{}{}", word(t), i) } else { format!("t{}x{}", i, t.pick(50)) });
+    }
+    let nlabels = 1 + t.pick(12);
+    let mut host = String::new();
+    for i in 0..nlabels {
+        host.push_str(&format!("l{}.", i));
+    }
+    host.push_str("example.com");
+    let split = t.pick(segs.len());
+    let path = segs[..split].join("/");
+    let query = segs[split..].iter().enumerate().map(|(i, s)| format!("k{}={}", i, s)).collect::<Vec<_>>().join("&");
+    let u = format!("https://{}/{}?{}", host, path, query);
+    let mut rules = vec![];
+    for _ in 0..(1 + t.pick(6)) {
+        let from = u.len() - 1 - t.pick((u.len() / 3).max(1));
+        let from = from.min(u.len() - 1);
+        let len = 4 + t.pick(30);
+        let start = from.saturating_sub(len);
+        let piece = &u[start..from];
+        let r = match t.pick(6) {
+            0 => format!("{}|", &u[start..]),
+            1 => piece.replace('&', "^").to_string(),
+            2 => format!("||example.com*{}", piece),
+            3 => format!("||l{}.example.com^", nlabels - 1),
+            4 => format!("{}$domain={}", piece, host),
+            _ => piece.to_string(),
+        };
+        rules.push(r);
+    }
+    if t.chance(1, 3) {
+        rules.push(format!("@@{}", t.choose_ref(&rules).clone()));
+    }
+    let mut reqs = vec![ReqSpec { url: u.clone(), source: format!("https://{}/", host), rtype: "script".into() }];
+    reqs.push(ReqSpec { url: u.clone(), source: "https://other.org/".into(), rtype: "image".into() });
+    // a few more tokens: still below the limit?
+    let extra = format!("{}&z1=a1&z2=b2", u);
+    if crate::props::c01::approx_tokens(&extra) < 120 {
+        reqs.push(ReqSpec { url: extra, source: String::new(), rtype: "xhr".into() });
+    }
+    NetCase { rules, tags: vec![], reqs }
 }
